@@ -9,7 +9,6 @@ import (
 	"strings"
 	"time"
 
-	dbm "github.com/cometbft/cometbft-db"
 	abci "github.com/cometbft/cometbft/abci/types"
 	storetypes "github.com/cosmos/cosmos-sdk/store/types"
 	sdk "github.com/cosmos/cosmos-sdk/types"
@@ -293,7 +292,7 @@ func (h *c20Harness) doExport() *Violation {
 			Detail: fmt.Sprintf("ExportAppStateAndValidators failed at height %d: err=%v panic=%s", w0.Hdr.Height, exp.err, exp.pan)}
 	}
 	w1 := &World{Cfg: w0.Cfg, Unsolicited: map[string]sdk.Coins{}, Stats: NewStats(), S: map[string]interface{}{}, X: map[string]interface{}{}}
-	w1.DB = dbm.NewMemDB()
+	w1.DB = newSimDB()
 	w1.Enc, w1.TxCfg, w1.ValKey, w1.ValHash, w1.Actors = w0.Enc, w0.TxCfg, w0.ValKey, w0.ValHash, w0.Actors
 	w1.App = newApp(w1.DB, w0.Cfg.ChainID)
 	w1.Cdp, w1.Dex, w1.Lend = w0.Cdp, w0.Dex, w0.Lend // set-up plans are read-only data
